@@ -65,27 +65,15 @@ func Int128FromFloat64(f float64) Int128 {
 	case f == 0 || f != f: // 0 or NaN
 		return Int128{}
 	case f < 0:
-		switch {
-		case f >= -float64(math.MaxUint64)-1:
-			return Int128{
-				hi: math.MaxUint64,
-				lo: uint64(f),
-			}
-		case f >= minInt128Float:
-			f = -f
-			lo := math.Mod(f, wrapUint64Float)
-			return Int128{
-				hi: ^uint64(f / wrapUint64Float),
-				lo: ^uint64(lo),
-			}
-		default:
+		if f <= minInt128Float {
 			return MinInt128
 		}
+		return Int128FromFloat64(-f).Neg()
 	default:
 		switch {
-		case f <= float64(math.MaxUint64):
+		case f <= maxRepresentableUint64Float:
 			return Int128{lo: uint64(f)}
-		case f <= maxInt128Float:
+		case f < maxInt128Float:
 			return Int128{
 				hi: uint64(f / wrapUint64Float),
 				lo: uint64(math.Mod(f, wrapUint64Float)),
@@ -203,7 +191,7 @@ func (i Int128) AsFloat64() float64 {
 			return 0
 		}
 		return float64(i.lo)
-	case i.hi == math.MaxUint64:
+	case i.hi == math.MaxUint64 && i.lo != 0:
 		return -float64((^i.lo) + 1)
 	case i.hi&signBit == 0:
 		return (float64(i.hi) * maxUint64Float) + float64(i.lo)
